@@ -113,6 +113,9 @@ def style_doc(style: str, desc: str, params: list[tuple[str, str]], result: tupl
     return "\n".join(lines).rstrip("\n")
 
 
+KIND_ORDER = ["posonly", "pos", "vararg", "kwonly", "kwarg"]
+
+
 class Scope:
     """Names unique within one Python scope (suffixing keeps the interesting prefix)."""
 
@@ -137,15 +140,24 @@ def _function(draw: Any, scope: Scope, style: str, kind: str = "function", fixed
     if kind == "classmethod":
         ps.take("cls")
     params = []
-    for _ in range(draw(st.integers(0, 3)) if kind != "property" else 0):
+    n_params = draw(st.integers(0, 4)) if kind != "property" else 0
+    # parameter kinds in signature order: posonly* pos* vararg? kwonly* kwarg?
+    kinds = sorted(draw(st.lists(st.sampled_from(["pos", "pos", "pos", "posonly", "kwonly", "vararg", "kwarg"]), min_size=n_params, max_size=n_params)), key=KIND_ORDER.index)
+    seen_kinds: set[str] = set()
+    for pk in kinds:
+        if pk in {"vararg", "kwarg"} and pk in seen_kinds:
+            pk = "kwonly" if pk == "vararg" else "kwarg2"
+        if pk == "kwarg2":
+            continue
+        seen_kinds.add(pk)
         pname = ps.take(draw(name_pool("param")))
         has_ann = draw(st.booleans())
-        d = draw(defaults()) if draw(st.booleans()) else None
-        if params and params[-1]["default"] is not None and d is None:
+        d = draw(defaults()) if draw(st.booleans()) and pk not in {"vararg", "kwarg"} else None
+        if pk in {"pos", "posonly"} and params and params[-1]["kind"] in {"pos", "posonly"} and params[-1]["default"] is not None and d is None:
             d = draw(defaults())
         if d is not None and d[0] == "expr":
             has_ann = True
-        params.append(gt.param(pname, "pos", draw(simple_types()) if has_ann else None, d))
+        params.append(gt.param(pname, pk, draw(simple_types()) if has_ann else None, d))
     ret = draw(st.one_of(st.none(), simple_types()))
     if kind == "property":
         ret = draw(simple_types())
@@ -212,9 +224,66 @@ def _case(draw: Any, args: dict) -> dict:
         for _ in range(draw(st.integers(0, 2))):
             decls.append(draw(_enum(scope)))
         perm = draw(st.permutations(range(len(decls))))
+        decls = [decls[i] for i in perm]
+        perm = range(len(decls))
+        # superclasses: earlier classes of the module (plain names only: keyword-named classes used as types are an
+        # open finding), sometimes a class from outside the package; one to three of them
+        earlier: list[str] = []
+        for d in decls:
+            if d["t"] != "class":
+                continue
+            pool = [["raw", n] for n in earlier] + [["ext", "collections", "OrderedDict"], ["ext", "abc", "ABC"]]
+            if draw(st.integers(0, 2)) > 0:
+                k = draw(st.integers(1, min(3, len(pool))))
+                chosen = draw(st.permutations(pool))[:k]
+                # a consistent MRO: in-package bases first in definition-reversed order is not needed (no diamond: the
+                # pool classes get bases themselves, so keep only bases that are not ancestors of another chosen one)
+                d["bases"] = _mro_safe(chosen, decls)
+            if d["name"] in PLAIN:
+                earlier.append(d["name"])
         sub = draw(st.sampled_from([[], [], ["sub_pkg"], ["sub_pkg", "deeper_one"], ["Camel"]]))
         modules.append(gt.module([pkgname, *sub, mname], [decls[i] for i in perm], doc=draw(doc_texts()) if draw(st.booleans()) else None))
     return {"pkg": gt.package(pkgname, modules), "options": {"nc": draw(st.booleans()), "docstyle": style}}
+
+
+EXT_MRO = {"OrderedDict": ["OrderedDict", "dict", "object"], "ABC": ["ABC", "object"]}
+
+
+def _c3(bases: list, by_name: dict) -> list[str] | None:
+    """C3 linearisation of a class with the given bases (None when Python would reject the class statement)."""
+    seqs = []
+    for b in bases:
+        if b[0] == "raw":
+            lin = _c3(by_name[b[1]].get("bases", []), by_name)
+            if lin is None:
+                return None
+            seqs.append([b[1], *lin])
+        else:
+            seqs.append(list(EXT_MRO[b[2]]))
+    if not bases:
+        return ["object"]
+    seqs.append([b[1] if b[0] == "raw" else b[2] for b in bases])
+    out: list[str] = []
+    while any(seqs):
+        seqs = [q for q in seqs if q]
+        for q in seqs:
+            h = q[0]
+            if not any(h in o[1:] for o in seqs):
+                break
+        else:
+            return None
+        out.append(h)
+        seqs = [[x for x in q if x != h] for q in seqs]
+    return out
+
+
+def _mro_safe(chosen: list, decls: list) -> list:
+    """Longest prefix of the chosen bases that Python can linearise (sound input: the class statement must execute)."""
+    by_name = {d["name"]: d for d in decls if d["t"] == "class"}
+    chosen = list(chosen)
+    while chosen and (_c3(chosen, by_name) is None or len({tuple(b) for b in chosen}) != len(chosen)):
+        chosen.pop()
+    return chosen
 
 
 def strategy(args: dict) -> st.SearchStrategy:
